@@ -3123,17 +3123,24 @@ func (db *DB) TryAcquireWriteLock() (ret *GuardSet) {
 	gs.pending.Unlock()
 
 	// If this is a rollback journal, upgrade all database locks to exclusive.
+	// RESERVED is taken last, once PENDING & SHARED are held exclusively and no
+	// connection can be looking: a connection that holds SHARED and tests for a
+	// hot journal treats a RESERVED lock as "a writer is active, the journal
+	// is not hot" and goes on to read the database file. If an attempt that
+	// is about to fail on SHARED held RESERVED in the meantime, that connection
+	// would read the pages of a dead transaction (SQLite itself goes from
+	// SHARED to EXCLUSIVE without RESERVED when it rolls back a hot journal).
 	if db.Mode() == DBModeRollback {
-		if !gs.reserved.TryLock() {
-			blockedBy = "lock(RESERVED)"
-			return nil
-		}
 		if !gs.pending.TryLock() {
 			blockedBy = "lock(PENDING)"
 			return nil
 		}
 		if !gs.shared.TryLock() {
 			blockedBy = "lock(SHARED)"
+			return nil
+		}
+		if !gs.reserved.TryLock() {
+			blockedBy = "lock(RESERVED)"
 			return nil
 		}
 		return gs
